@@ -676,4 +676,7 @@ def havoc_mutable_scalars(it, inst, containers=False, memo_none=False):
         else:
             continue
         out.append(a)
+    # ... and the rest of the process has run meanwhile (process-wide dicts may have been written by other objects)
+    from pyvc.api import interference
+    interference(it)
     return out
